@@ -38,7 +38,7 @@ let ity_of = function
 
 (* a random-access kind: operator table (depending on the convertibility flag), embedding of positions *)
 type kind = { ops : bool -> (z, z option) c16_ops; rep : int -> z; unrep : z -> int; lo : int; n : int;
-              two : bool; value : int -> string; always : bool; nplus : bool }
+              two : bool; value : int -> string; always : bool; nplus : bool; conv : bool; arrow : bool }
 
 let contents n = List.init n (fun p -> z_of_int (1000 + p))
 let kind_of (ks : string) (n : int) : kind =
@@ -48,27 +48,32 @@ let kind_of (ks : string) (n : int) : kind =
   match List.hd kp with
   | "dyn" | "fv" | "fmrow" ->
       { ops = (fun conv -> c16_legacy_ops (c16_dense_prims xs) conv); rep = (fun p -> c16_dense_rep (z_of_int p));
-        unrep = (fun x -> int_of_z (c16_dense_unrep x)); lo = -1; n; two = true; value = v1000; always = false; nplus = false }
+        unrep = (fun x -> int_of_z (c16_dense_unrep x)); lo = -1; n; two = true; value = v1000; always = false; nplus = false; conv = true; arrow = false }
   | "gen" ->
       { ops = (fun conv -> c16_legacy_ops (c16_generic_prims xs) conv); rep = z_of_int; unrep = int_of_z; lo = -1; n; two = true;
-        value = v1000; always = false; nplus = false }
+        value = v1000; always = false; nplus = false; conv = true; arrow = false }
   | "al" ->
       let s = int_of_string (List.nth kp 1) in
       let st = List.init s (fun _ -> z_of_int (-7)) @ xs in
       { ops = (fun conv -> c16_legacy_ops (c16_alist_prims (z_of_int s) (z_of_int n) st) conv);
         rep = (fun p -> c16_alist_rep (z_of_int s) (z_of_int p)); unrep = (fun x -> int_of_z (c16_alist_unrep (z_of_int s) x));
-        lo = 0; n; two = true; value = v1000; always = false; nplus = false }
+        lo = 0; n; two = true; value = v1000; always = false; nplus = false; conv = true; arrow = false }
   | "tr" | "trl" ->
       let f x = Z.add (Z.mul (z_of_int 3) x) (z_of_int 1) in
       { ops = (fun _ -> c16_tr_ops f xs); rep = z_of_int; unrep = int_of_z; lo = 0; n; two = true;
-        value = (fun p -> string_of_int (3 * (1000 + p) + 1)); always = false; nplus = true }
+        value = (fun p -> string_of_int (3 * (1000 + p) + 1)); always = false; nplus = true; conv = false; arrow = false }
   | "ir" ->
       let t = ity_of (List.nth kp 1) in
       let from = z_of_string (List.nth kp 2) in
       { ops = (fun _ -> c16_ir_ops t true);          (* the model is the code after fixes/C16-1.patch *)
         rep = (fun p -> c16_ir_rep t from (z_of_int p)); unrep = (fun x -> int_of_z (c16_ir_unrep t from x));
         lo = (if Z.ltb (c16_tmin t) from then -1 else 0); n; two = false;
-        value = (fun p -> string_of_z (Z.add from (z_of_int p))); always = true; nplus = true }
+        value = (fun p -> string_of_z (Z.add from (z_of_int p))); always = true; nplus = true; conv = true; arrow = false }
+  | "nfman" | "nfptr" ->
+      let xs' = xs in
+      let star p = c16_at xs' p in
+      { ops = (fun _ -> if List.hd kp = "nfman" then c16_nf_ops_manual (c16_vec_base xs') star else c16_nf_ops (c16_vec_base xs') star);
+        rep = z_of_int; unrep = int_of_z; lo = -1; n; two = false; value = v1000; always = false; nplus = true; conv = true; arrow = true }
   | _ -> failwith "kind"
 
 let ptok (k : kind) (o : (z, z option) c16_ops) (r : z) : string =
@@ -129,6 +134,11 @@ let do_step ks n var i kk =
   if i + 1 <= n then add "postinc" (pt it ^ "/" ^ pt (o.c16_o_inc it)) (sp i ^ "/" ^ sp (i + 1)) else add "postinc" "-" "-";
   if i - 1 >= k.lo then add "postdec" (pt it ^ "/" ^ pt (o.c16_o_dec it)) (sp i ^ "/" ^ sp (i - 1)) else add "postdec" "-" "-";
   if k.nplus then add "nplus" (pt (o.c16_o_plus it zk)) (sp (i + kk));
+  add "copy" (pt (c16_copy it)) (sp i);
+  add "assign" (pt (c16_copy it)) (sp i);
+  if k.conv then (add "conv" (pt (c16_copy it)) (sp i); add "convassign" (pt (c16_copy it)) (sp i))
+  else (add "conv" "n/a" "n/a"; add "convassign" "n/a" "n/a");
+  if k.arrow then add "arrow" (if i >= 0 && i < n then ovz (o.c16_o_star it) else "-") (if i >= 0 && i < n then k.value i else "-");
   ignore var;
   (Buffer.contents m, Buffer.contents s)
 
@@ -196,8 +206,11 @@ let idx_case base n i0 ops =
   let (it, ix) = c16_idx_run o (rep 0, z_of_string i0) l in
   let p = unrep it in
   let tok p v = string_of_int p ^ ":" ^ (if p >= 0 && p < n then v else "-") in
-  ("pos=" ^ tok p (ovz (o.c16_o_star it)) ^ " index=" ^ string_of_z (c16_idx_index (it, ix)),
-   "pos=" ^ tok delta (string_of_int (1000 + delta)) ^ " index=" ^ string_of_z (Z.add (z_of_string i0) (z_of_int delta)))
+  let (dit, dix) = c16_copy (it, ix) in
+  let mp = tok p (ovz (o.c16_o_star it)) and sp = tok delta (string_of_int (1000 + delta)) in
+  let si = string_of_z (Z.add (z_of_string i0) (z_of_int delta)) in
+  ("pos=" ^ mp ^ " index=" ^ string_of_z (c16_idx_index (it, ix)) ^ " dindex=" ^ string_of_z (c16_idx_index (dit, dix)) ^ " dpos=" ^ tok (unrep dit) (ovz (o.c16_o_star dit)),
+   "pos=" ^ sp ^ " index=" ^ si ^ " dindex=" ^ si ^ " dpos=" ^ sp)
 
 let res_list f = function C16Ok l -> join (List.map f l) | C16OutOfFuel -> "OUTOFFUEL"
 
@@ -215,12 +228,16 @@ let irange_case static t =
   let sel = join (List.map string_of_z sl) in
   let scont = if xs = [] then "-" else String.concat "" (List.map (fun x -> b01 (Z.leb from x && Z.ltb x to_)) xs) in
   if static then
-    (Printf.sprintf "elems=%s size=%s empty=%s at=%s seq=%s dyn=%s cont=%s" elems (string_of_z size) (b01 (c16_irange_empty from to_)) at
-       (join (List.map string_of_z (c16_sirange_seq ty from to_))) elems cont,
-     Printf.sprintf "elems=%s size=%s empty=%s at=%s seq=%s dyn=%s cont=%s" sel (string_of_z (Z.sub to_ from)) (b01 (from = to_)) sel sel sel scont)
+    let sq = c16_sirange_seq ty from to_ in
+    let ats l = if l = [] then "-" else join [string_of_z (List.hd l); string_of_z (List.nth l (List.length l - 1))] in
+    let f1 m = if from = Z0 then m else "n/a" in
+    (Printf.sprintf "elems=%s size=%s empty=%s at=%s seq=%s ats=%s fac=%s tis=%s fac1=%s dyn=%s cont=%s" elems (string_of_z size) (b01 (c16_irange_empty from to_)) at
+       (join (List.map string_of_z sq)) (ats (List.init (int_of_z size) (fun i -> c16_irange_at ty from (z_of_int i)))) elems (join (List.map string_of_z sq)) (f1 elems) elems cont,
+     Printf.sprintf "elems=%s size=%s empty=%s at=%s seq=%s ats=%s fac=%s tis=%s fac1=%s dyn=%s cont=%s" sel (string_of_z (Z.sub to_ from)) (b01 (from = to_)) sel sel (ats sl) sel sel (f1 sel) sel scont)
   else
-    (Printf.sprintf "elems=%s size=%s empty=%s at=%s cont=%s" elems (string_of_z size) (b01 (c16_irange_empty from to_)) at cont,
-     Printf.sprintf "elems=%s size=%s empty=%s at=%s cont=%s" sel (string_of_z (Z.sub to_ from)) (b01 (from = to_)) sel scont)
+    let one m = if from = Z0 then m else "-" in
+    (Printf.sprintf "elems=%s size=%s empty=%s at=%s cont=%s pair=%s one=%s rone=%s" elems (string_of_z size) (b01 (c16_irange_empty from to_)) at cont elems (one elems) (one elems),
+     Printf.sprintf "elems=%s size=%s empty=%s at=%s cont=%s pair=%s one=%s rone=%s" sel (string_of_z (Z.sub to_ from)) (b01 (from = to_)) sel scont sel (one sel) (one sel))
 
 let tr_case t =
   let base = List.nth t 1 in
@@ -233,9 +250,10 @@ let tr_case t =
   let ra = base <> "list" in
   let at = if ra then join (List.init n (fun i -> ovz (c16_tr_at f xs (z_of_int i)))) else "-" in
   let sel = join (List.map (fun x -> string_of_z (f x)) xs) in
-  (Printf.sprintf "elems=%s calls=%s size=%s empty=%s at=%s const=%s" elems (join (List.map string_of_z xs)) (string_of_z (c16_tr_size xs))
-     (b01 (c16_tr_empty xs)) at elems,
-   Printf.sprintf "elems=%s calls=%s size=%d empty=%s at=%s const=%s" sel (join (List.map string_of_z xs)) n (b01 (n = 0)) (if ra then sel else "-") sel)
+  let raw = join (List.map string_of_z xs) in
+  (Printf.sprintf "elems=%s calls=%s size=%s empty=%s at=%s const=%s cat=%s raw=%s craw=%s" elems raw (string_of_z (c16_tr_size xs))
+     (b01 (c16_tr_empty xs)) at elems at raw raw,
+   Printf.sprintf "elems=%s calls=%s size=%d empty=%s at=%s const=%s cat=%s raw=%s craw=%s" sel raw n (b01 (n = 0)) (if ra then sel else "-") sel (if ra then sel else "-") raw raw)
 
 let sparse_case t =
   let xs = if List.length t > 2 then zlist (List.nth t 2) else [] in
@@ -308,6 +326,245 @@ let hy_case t =
        Printf.sprintf "ss=S%d sd=D%d ds=D%d dd=D%d" sv sv sv sv)
   | _ -> ("BADCASE", "BADCASE")
 
+(* ------------------------------------------------------------------ additions of the API-coverage audit *)
+let tokline l = String.concat " " (List.map (fun (k, m, _) -> k ^ "=" ^ m) l), String.concat " " (List.map (fun (k, _, sp) -> k ^ "=" ^ sp) l)
+let zs l = join (List.map string_of_z l)
+let is l = join (List.map string_of_int l)
+
+let cont_case ks n arg =
+  let kp = String.split_on_char ':' ks in
+  let base = List.hd kp in
+  if base = "sl" then
+    let sp p = string_of_int p ^ ":" ^ (if p >= 0 && p < n then string_of_int (1000 + p) else "-") in
+    let o = c16_legacy_ops (c16_sl_prims (contents n)) true in
+    let pt p = let q = int_of_z p in string_of_int q ^ ":" ^ (if q >= 0 && q < n then ovz (o.c16_o_star p) else "-") in
+    let z = z_of_int in
+    tokline [ ("begin", pt (z 0), sp 0); ("cbegin", pt (z 0), sp 0); ("end", pt (z n), sp n); ("cend", pt (z n), sp n);
+              ("bmod", pt (z 0), sp 0); ("emod", pt (z n), sp n); ("itfrommod", pt (c16_copy (z arg)), sp arg);
+              ("cfrommod", pt (c16_copy (z arg)), sp arg); ("cfromit", pt (c16_copy (z arg)), sp arg) ]
+  else
+  let k = kind_of ks n in
+  let o = k.ops true in
+  let pt = ptok k o and sp = spec_ptok k in
+  let be = [ ("begin", pt (k.rep 0), sp 0); ("cbegin", pt (k.rep 0), sp 0); ("end", pt (k.rep n), sp n); ("cend", pt (k.rep n), sp n) ] in
+  if base = "al" || base = "tr" then tokline be else
+  let zn = z_of_int n in
+  let d = [ ("begin", pt c16_dense_begin, sp 0); ("cbegin", pt c16_dense_begin, sp 0); ("end", pt (c16_dense_end zn), sp n); ("cend", pt (c16_dense_end zn), sp n);
+            ("bbegin", pt c16_dense_before_begin, sp (-1)); ("cbbegin", pt c16_dense_before_begin, sp (-1)) ] in
+  let d = d @ (if n >= 1 then [ ("bend", pt (c16_dense_before_end zn), sp (n - 1)); ("cbend", pt (c16_dense_before_end zn), sp (n - 1)) ] else [ ("bend", "-", "-"); ("cbend", "-", "-") ]) in
+  let d = d @ (if base = "fmrow" then [] else let f = pt (c16_dense_find zn (z_of_int arg)) in [ ("find", f, sp (min arg n)); ("cfind", f, sp (min arg n)) ]) in
+  tokline d
+
+(* forward / bidirectional kinds *)
+type bkind = { bops : bool -> (z, z option) c16_ops; brep : int -> z; bunrep : z -> int; blo : int; bidir : bool; btwo : bool; barrow : bool;
+               bcombos : (string * bool) list }
+let bkind_of ks n =
+  let xs = contents n in
+  match ks with
+  | "genbi" -> { bops = (fun c -> c16_legacy_ops (c16_generic_prims xs) c); brep = z_of_int; bunrep = int_of_z; blo = -1; bidir = true; btwo = true; barrow = false; bcombos = combos_conv_all }
+  | "genfw" -> { bops = (fun c -> c16_legacy_ops (c16_generic_prims xs) c); brep = z_of_int; bunrep = int_of_z; blo = 0; bidir = false; btwo = true; barrow = false; bcombos = combos_conv_all }
+  | "bsv" -> { bops = (fun c -> c16_legacy_ops (c16_generic_prims xs) c); brep = z_of_int; bunrep = int_of_z; blo = 0; bidir = false; btwo = true; barrow = false; bcombos = combos_conv_all }
+  | "diag" -> { bops = (fun c -> c16_legacy_ops (c16_cw_prims xs) c); brep = (fun p -> c16_dense_rep (z_of_int p)); bunrep = (fun x -> int_of_z (c16_dense_unrep x));
+                blo = -1; bidir = true; btwo = true; barrow = false; bcombos = combos_conv_all }
+  | "cbi" -> { bops = (fun c -> c16_legacy_ops (c16_generic_prims xs) c); brep = z_of_int; bunrep = int_of_z; blo = -1; bidir = true; btwo = true; barrow = true; bcombos = combos }
+  | "nffw" -> { bops = (fun _ -> c16_nf_ops (c16_vec_base xs) (fun p -> c16_at xs p)); brep = z_of_int; bunrep = int_of_z; blo = 0; bidir = false; btwo = false; barrow = true; bcombos = [ ("mm", true) ] }
+  | "nfbi" -> { bops = (fun _ -> c16_nf_ops (c16_vec_base xs) (fun p -> c16_at xs p)); brep = z_of_int; bunrep = int_of_z; blo = -1; bidir = true; btwo = false; barrow = true; bcombos = [ ("mm", true) ] }
+  | _ -> failwith "bkind"
+let bcmp_case ks n i j =
+  let k = bkind_of ks n in
+  if i < k.blo || j < k.blo || i > n || j > n then ("BADCASE", "BADCASE") else
+  String.concat " " (List.map (fun (nm, conv) -> let o = k.bops conv in nm ^ "=" ^ b01 (o.c16_o_eq (k.brep i) (k.brep j)) ^ b01 (o.c16_o_ne (k.brep i) (k.brep j))) k.bcombos),
+  String.concat " " (List.map (fun (nm, _) -> nm ^ "=" ^ spec2 i j) k.bcombos)
+let bstep_case ks n i kk =
+  let k = bkind_of ks n in
+  if i < k.blo || i > n || i + kk < k.blo || i + kk > n || ((not k.bidir) && kk < 0) then ("BADCASE", "BADCASE") else
+  let o = k.bops true in
+  let it = k.brep i in
+  let pt r = let p = k.bunrep r in if p < k.blo || p > n then "?none" else string_of_int p ^ ":" ^ (if p >= 0 && p < n then ovz (o.c16_o_star r) else "-") in
+  let sp p = string_of_int p ^ ":" ^ (if p >= 0 && p < n then string_of_int (1000 + p) else "-") in
+  let l = [ ("steps", pt (c16_steps o it (z_of_int kk)), sp (i + kk));
+            (if i + 1 <= n then ("postinc", pt it ^ "/" ^ pt (o.c16_o_inc it), sp i ^ "/" ^ sp (i + 1)) else ("postinc", "-", "-")) ] in
+  let l = l @ (if k.bidir then [
+            (if i + 1 <= n then ("incdec", pt (o.c16_o_dec (o.c16_o_inc it)), sp i) else ("incdec", "-", "-"));
+            (if i - 1 >= k.blo then ("decinc", pt (o.c16_o_inc (o.c16_o_dec it)), sp i) else ("decinc", "-", "-"));
+            (if i - 1 >= k.blo then ("postdec", pt it ^ "/" ^ pt (o.c16_o_dec it), sp i ^ "/" ^ sp (i - 1)) else ("postdec", "-", "-")) ] else []) in
+  let l = l @ [ ("copy", pt (c16_copy it), sp i); ("assign", pt (c16_copy it), sp i); ("conv", pt (c16_copy it), sp i) ] in
+  let l = l @ (if k.barrow then [ ("arrow", (if i >= 0 && i < n then ovz (o.c16_o_star it) else "-"), (if i >= 0 && i < n then string_of_int (1000 + i) else "-")) ] else []) in
+  tokline l
+
+let res_zs = function C16Ok l -> l | C16OutOfFuel -> failwith "OUTOFFUEL"
+let trx_case variant xs =
+  let n = List.length xs in
+  let fuel = nat_of_int (n + 2) in
+  let elems f = List.map (function Some v -> v | None -> failwith "deref") (res_zs (c16_tr_elems f xs fuel)) in
+  let at f = List.init n (fun i -> match c16_tr_at f xs (z_of_int i) with Some v -> v | None -> failwith "at") in
+  let zi = z_of_int in
+  match variant with
+  | "ref" ->
+      tokline [ ("seen", zs (elems (fun x -> x)), zs xs); ("arrow", zs (elems Z.opp), zs (List.map Z.opp xs));
+                ("under", zs (elems (fun x -> Z.add (Z.mul (zi 2) x) (zi 1))), zs (List.map (fun x -> Z.add (Z.mul (zi 2) x) (zi 1)) xs));
+                ("idx", zs (at (fun x -> Z.add (Z.opp x) (zi 5))), zs (List.map (fun x -> Z.add (Z.opp x) (zi 5)) xs)) ]
+  | "proxy" ->
+      let fa x = Z.mul (zi 3) x and fb x = Z.sub x (zi 1) in
+      tokline [ ("a", zs (elems fa), zs (List.map fa xs)); ("b", zs (elems fb), zs (List.map fb xs)); ("ca", zs (elems fa), zs (List.map fa xs));
+                ("cst", zs (elems fb), zs (List.map fb xs)) ]
+  | "iter" ->
+      let pairs = List.map (function Some p -> p | None -> failwith "deref") (res_zs (c16_sparse_elems xs (fun p -> p) fuel)) in
+      let m = zs (List.map (fun (v, i) -> Z.add (Z.mul (zi 10) v) i) pairs) in
+      let s = zs (List.map (fun (v, i) -> Z.add (Z.mul (zi 10) v) i) (c16_spec_sparse xs)) in
+      tokline [ ("elems", m, s); ("at", m, s); ("celems", m, s); ("size", string_of_z (c16_tr_size xs), string_of_int n); ("empty", b01 (c16_tr_empty xs), b01 (n = 0)) ]
+  | "fwd" ->
+      let f x = Z.add (Z.mul (zi 2) x) (zi 7) in
+      tokline [ ("elems", zs (elems f), zs (List.map f xs)); ("post", zs (elems f), zs (List.map f xs)); ("empty", b01 (c16_tr_empty xs), b01 (n = 0));
+                ("eqs", (let o = c16_tr_ops f xs in
+                         let a = Z0 and b = Z0 in
+                         let e = (if o.c16_o_eq a b then 1 else 0) + (if not (o.c16_o_ne a b) then 2 else 0) in
+                         let e = if n > 0 then (let b = o.c16_o_inc b in e + (if o.c16_o_ne a b then 4 else 0) + (if not (o.c16_o_eq a b) then 8 else 0)) else e + 12 in
+                         string_of_int e), "15") ]
+  | "direct" ->
+      let f x = Z.mul (zi 5) x in
+      let o = c16_tr_ops f xs in
+      tokline [ ("elems", zs (elems f), zs (List.map f xs)); ("viaassign", zs (at f), zs (List.map f xs));
+                ("dist", string_of_z (o.c16_o_diff (zi n) Z0), string_of_int n);
+                ("onlyit", (if n > 0 then ovz (c16_tr_at (fun x -> Z.mul (zi 4) x) xs Z0) else "-"), (if n > 0 then string_of_z (Z.mul (zi 4) (List.hd xs)) else "-")) ]
+  | _ -> ("BADCASE", "BADCASE")
+
+let sparsex_case xs =
+  let n = List.length xs in
+  let zi = z_of_int in
+  let pr r = function Some (v, i) -> string_of_int r ^ "/" ^ string_of_z v ^ ":" ^ string_of_z i | None -> "-" in
+  let rows f = List.concat (List.mapi (fun r x -> f r x) xs) in
+  (* row r of a diagonal matrix: one stored entry whose iterator reports index r *)
+  let diag_m = rows (fun r x -> List.map (pr r) (res_zs (c16_sparse_elems [x] (fun _ -> zi r) (nat_of_int 3)))) in
+  let diag_s = List.mapi (fun r x -> string_of_int r ^ "/" ^ string_of_z x ^ ":" ^ string_of_int r) xs in
+  let full_row x = List.init n (fun j -> Z.add (Z.mul (zi 10) x) (zi j)) in
+  let full_m = rows (fun r x -> List.map (pr r) (res_zs (c16_sparse_elems (full_row x) (fun p -> p) (nat_of_int (n + 2))))) in
+  let full_s = rows (fun r x -> List.map (fun (v, i) -> string_of_int r ^ "/" ^ string_of_z v ^ ":" ^ string_of_z i) (c16_spec_sparse (full_row x))) in
+  let p2 = function Some (v, i) -> string_of_z v ^ ":" ^ string_of_z i | None -> "-" in
+  let dr_m = List.map p2 (res_zs (c16_sparse_elems xs (fun p -> p) (nat_of_int (n + 2)))) in
+  let dr_s = List.map (fun (v, i) -> string_of_z v ^ ":" ^ string_of_z i) (c16_spec_sparse xs) in
+  let x10 = List.map (fun x -> Z.mul (zi 10) x) xs in
+  let fr_m = List.map p2 (res_zs (c16_sparse_elems x10 (fun p -> p) (nat_of_int (n + 2)))) in
+  let fr_s = List.map (fun (v, i) -> string_of_z v ^ ":" ^ string_of_z i) (c16_spec_sparse x10) in
+  tokline [ ("diag", join diag_m, join diag_s); ("cdiag", join diag_m, join diag_s); ("full", join full_m, join full_s); ("cfull", join full_m, join full_s);
+            ("drows", join dr_m, join dr_s); ("frows", join fr_m, join fr_s) ]
+
+let rutil_case xs =
+  let x = List.hd xs and r = List.tl xs in
+  let bv = List.map (fun v -> v <> Z0) xs in
+  let n = List.length xs in
+  let bs = List.init 6 (fun i -> if i < n then List.nth bv i else List.hd bv) in
+  let smax = List.fold_left (fun a b -> if Z.ltb a b then b else a) x r and smin = List.fold_left (fun a b -> if Z.ltb b a then b else a) x r in
+  let ir = c16_spec_irange Z0 (z_of_int n) in
+  tokline [ ("max", string_of_z (c16_max_value x r), string_of_z smax); ("min", string_of_z (c16_min_value x r), string_of_z smin);
+            ("smax", string_of_z (c16_max_value x []), string_of_z x); ("smin", string_of_z (c16_min_value x []), string_of_z x);
+            ("any", b01 (c16_any_true bv), b01 (List.exists (fun b -> b) bv)); ("all", b01 (c16_all_true bv), b01 (List.for_all (fun b -> b) bv));
+            ("sany", b01 (c16_any_true [List.hd bv]), b01 (List.hd bv)); ("sall", b01 (c16_all_true [List.hd bv]), b01 (List.hd bv));
+            ("bany", b01 (c16_any_true bs), b01 (List.exists (fun b -> b) bs)); ("ball", b01 (c16_all_true bs), b01 (List.for_all (fun b -> b) bs));
+            ("irmax", string_of_z (c16_max_value (List.hd ir) (List.tl ir)), string_of_int (n - 1)); ("irmin", string_of_z (c16_min_value (List.hd ir) (List.tl ir)), "0") ]
+
+let iseq_table = function
+  | 0 -> [] | 1 -> [4] | 2 -> [1; 2; 3] | 3 -> [3; 1; 2] | 4 -> [5; 5; 0; 9; 2; 2; 7] | 5 -> [9; 8; 7; 6; 5; 4; 3; 2; 1; 0] | 6 -> [2; 0; 1; 0] | 7 -> [0; 1; 2; 3; 4; 5]
+  | _ -> failwith "table"
+let iseq_case id =
+  let si = iseq_table id in
+  let s = List.map z_of_int si in
+  let n = List.length s in
+  let zi = z_of_int in
+  let odd x = Z.modulo x (zi 2) <> Z0 and lt3 x = Z.ltb x (zi 3) in
+  let get = List.init n (fun i -> match c16_iseq_get s (zi i) with Some v -> v | None -> failwith "get") in
+  let ten = List.init 10 zi in
+  let mapped = List.map (fun x -> if Z.leb Z0 x && Z.ltb x (zi 10) then x else Z0) s in
+  let ssort = List.sort compare si in
+  let l = [ ("seq", zs s, is si); ("size", "S" ^ string_of_z (c16_hy_size C16Static s), "S" ^ string_of_int n); ("empty", b01 (s = []), b01 (n = 0)) ] in
+  let l = l @ (if n > 0 then
+    [ ("get", zs (get @ get), is (si @ si)); ("getdyn", zs get, is si); ("front", "S" ^ ovz (c16_iseq_get s Z0), "S" ^ string_of_int (List.hd si));
+      ("back", "S" ^ ovz (c16_iseq_back s), "S" ^ string_of_int (List.nth si (n - 1))); ("head", "S" ^ ovz (c16_iseq_get s Z0), "S" ^ string_of_int (List.hd si));
+      ("tail", zs (List.tl s), is (List.tl si));
+      ("hyat", zs (List.init n (fun i -> match c16_hy_elementAt C16Static s (zi i) with Some v -> v | None -> failwith "at")), is si) ]
+    else [ ("get", "-", "-"); ("getdyn", "-", "-"); ("front", "-", "-"); ("back", "-", "-"); ("head", "-", "-"); ("tail", "-", "-"); ("hyat", "-", "-") ]) in
+  let l = l @ [ ("pushf", zs (zi 7 :: s), is (7 :: si)); ("pushb", zs (s @ [zi 7]), is (si @ [7])); ("pushf2", zs (zi 8 :: s), is (8 :: si)); ("pushb2", zs (s @ [zi 8]), is (si @ [8]));
+                ("sorted", zs (c16_iseq_sorted Z.ltb s), is ssort); ("sortedgt", zs (c16_iseq_sorted Z.gtb s), is (List.rev ssort));
+                ("has2", b01 (c16_iseq_contains s (zi 2)), b01 (List.mem 2 si)); ("has5", b01 (c16_iseq_contains s (zi 5)), b01 (List.mem 5 si));
+                ("diff", zs (c16_iseq_difference_dec s [zi 2; zi 3; zi 9]), is (List.filter (fun x -> not (List.mem x [2; 3; 9])) si));
+                ("cdiff", zs (c16_iseq_difference_dec ten mapped), is (List.filter (fun x -> not (List.mem x (List.map (fun y -> if y >= 0 && y < 10 then y else 0) si))) (List.init 10 (fun i -> i))));
+                ("eqself", b01 (c16_iseq_equal s s), "1"); ("eq123", b01 (c16_iseq_equal s [zi 1; zi 2; zi 3]), b01 (si = [1; 2; 3]));
+                ("odd", zs (c16_iseq_filter odd s), is (List.filter (fun x -> x mod 2 <> 0) si)); ("lt3", zs (c16_iseq_filter lt3 s), is (List.filter (fun x -> x < 3) si)) ] in
+  tokline l
+
+let arrow_case n i =
+  let xs = contents n in
+  let g = c16_legacy_ops (c16_generic_prims xs) true and sl = c16_legacy_ops (c16_sl_prims xs) true in
+  let v o = ovz (o.c16_o_star (z_of_int i)) and sv = string_of_int (1000 + i) in
+  tokline [ ("ra", v g, sv); ("cra", v g, sv); ("bi", v g, sv); ("fw", v sl, sv); ("cfw", v sl, sv); ("mfw", v sl, sv); ("wrote", "7", "7") ]
+let prim_case kind n i j =
+  let xs = contents n in
+  let zi = z_of_int in
+  let sb = b01 (i = j) and sd = string_of_int (j - i) in
+  match kind with
+  | "al" ->
+      let st = [zi (-7); zi (-7)] @ xs in
+      let pr = c16_alist_prims (zi 2) (zi n) st in
+      let r p = c16_alist_rep (zi 2) (zi p) in
+      let e = b01 (pr.c16_p_eq (r i) (r j)) and d = string_of_z (pr.c16_p_dist (r i) (r j)) in
+      tokline [ ("meqk", e, sb); ("meqm", e, sb); ("keqk", e, sb); ("mdk", d, sd); ("mdm", d, sd); ("kdk", d, sd); ("pos", string_of_z (r i), string_of_int (2 + i)) ]
+  | "sl" ->
+      let pr = c16_sl_prims xs in
+      let e = b01 (pr.c16_p_eq (zi i) (zi j)) in
+      let me = b01 (c16_slmod_eq (zi (i - 1), zi i) (zi (j - 1), zi j)) in
+      tokline [ ("meqc", e, sb); ("meqi", e, sb); ("meqm", me, sb); ("ieqc", e, sb); ("ieqm", e, sb); ("ceqc", e, sb) ]
+  | "dyn" | "gen" ->
+      let pr = if kind = "dyn" then c16_dense_prims xs else c16_generic_prims xs in
+      let r p = if kind = "dyn" then c16_dense_rep (zi p) else zi p in
+      let e = b01 (pr.c16_p_eq (r i) (r j)) and d = string_of_z (pr.c16_p_dist (r i) (r j)) in
+      tokline ([ ("meqk", e, sb); ("keqm", e, sb); ("mdk", d, sd); ("kdm", d, sd); ("mdm", d, sd) ]
+               @ (if kind = "dyn" then [ ("index", string_of_z (c16_dense_unrep (r i)), string_of_int i) ] else []))
+  | _ -> ("BADCASE", "BADCASE")
+
+let hyx_case t =
+  let nth = List.nth t in
+  let zi = z_of_int in
+  match nth 1 with
+  | "range" ->
+      let f = z_of_string (nth 3) and to_ = z_of_string (nth 4) in
+      let xs = c16_spec_irange f to_ in
+      let lg m tag = join (List.map (fun x -> tag ^ string_of_z x) (c16_hy_log m xs)) in
+      let sp tag = join (List.map (fun x -> tag ^ string_of_z x) xs) in
+      let n = List.length xs in
+      tokline [ ("static", lg C16Static "S", sp "S"); ("dyn", lg C16Dynamic "D", sp "D"); ("mixed", lg C16Dynamic "D", sp "D");
+                ("ssize", "S" ^ string_of_z (c16_hy_size C16Static xs), "S" ^ string_of_int n); ("dsize", "D" ^ string_of_z (c16_hy_size C16Dynamic xs), "D" ^ string_of_int n) ]
+  | "vswitch" ->
+      let v = z_of_string (nth 2) in
+      let cases = [zi 1; zi 4; zi 2] in
+      let br i = Z.add (zi 100) i and el = zi (-9) in
+      let inseq = List.mem v cases and inr = c16_irange_contains (zi 2) (zi 7) v in
+      let spv = string_of_z (br v) in
+      tokline [ ("seqdyn", (if inseq then string_of_z (c16_hy_switch_dynamic cases v br el) else "-9"), (if inseq then spv else "-9"));
+                ("seqstatic", (if inseq then string_of_z (c16_hy_switch_static cases v br el) else "-9"), (if inseq then spv else "-9"));
+                ("range", (if inr then string_of_z (c16_hy_switch_range (zi 2) (zi 7) v br el) else "-9"), (if inr then spv else "-9"));
+                ("srange", (if inr then string_of_z (c16_hy_switch_dynamic (c16_sirange_seq (ity_of "i32") (zi 2) (zi 7)) v br el) else "-9"), (if inr then spv else "-9")) ]
+  | "fun3" ->
+      let a = int_of_string (nth 2) and b = int_of_string (nth 3) and c = int_of_string (nth 4) in
+      let mx = string_of_z (c16_hy_maxn (zi a) [zi b; zi c]) and mn = string_of_z (c16_hy_minn (zi a) [zi b; zi c]) in
+      let smx = string_of_int (max a (max b c)) and smn = string_of_int (min a (min b c)) in
+      tokline [ ("maxsss", "S" ^ mx, "S" ^ smx); ("maxsds", "D" ^ mx, "D" ^ smx); ("maxddd", "D" ^ mx, "D" ^ smx);
+                ("minsss", "S" ^ mn, "S" ^ smn); ("minssd", "D" ^ mn, "D" ^ smn); ("minddd", "D" ^ mn, "D" ^ smn);
+                ("max1", "S" ^ string_of_z (c16_hy_maxn (zi a) []), "S" ^ string_of_int a); ("hf", "S" ^ string_of_z (Z.mul (zi a) (zi c)), "S" ^ string_of_int (a * c)) ]
+  | "enum" ->
+      let e = res_list ovz (c16_irange_elems (ity_of "i32") true (nat_of_int 10) Z0 (zi 4)) in
+      tokline [ ("elems", e, zs (c16_spec_irange Z0 (zi 4))); ("size", string_of_z (c16_irange_size (ity_of "i32") Z0 (zi 4)), "4") ]
+  | "fvec" ->
+      let xs = zlist (nth 2) in
+      let acc7 a x = Z.add (Z.mul (zi 7) a) x in
+      let w = List.mapi (fun i x -> Z.add x (zi (if i = 1 then 11 else 1))) xs in
+      let at m i = ovz (c16_hy_elementAt m xs (zi i)) in
+      tokline [ ("fvsize", "S" ^ string_of_z (c16_hy_size C16Static xs), "S3"); ("fv", zs (c16_hy_log C16Static xs), zs xs); ("ctuple", zs (c16_hy_log C16Static xs), zs xs);
+                ("fvacc", string_of_z (c16_hy_accumulate C16Static acc7 xs (zi 1)), string_of_z (c16_spec_fold acc7 xs (zi 1)));
+                ("fvat", at C16Dynamic 2, string_of_z (List.nth xs 2)); ("ctat", at C16Static 2, string_of_z (List.nth xs 2));
+                ("pairsize", "S" ^ string_of_z (c16_hy_size C16Static [List.nth xs 0; List.nth xs 1]), "S2");
+                ("wtuple", zs (c16_hy_log C16Static w), zs w); ("wvec", zs (c16_hy_log C16Dynamic w), zs w) ]
+  | _ -> ("BADCASE", "BADCASE")
+
 let () =
   let ic = open_in Sys.argv.(1) in
   (try while true do
@@ -328,6 +585,18 @@ let () =
             if base = "sl" then sl_step (ios (nth 2)) (nth 3) (ios (nth 4)) (ios (nth 5))
             else if base = "trl" then trl_step (ios (nth 2)) (ios (nth 4)) (ios (nth 5))
             else do_step ks (ios (nth 2)) (nth 3) (ios (nth 4)) (ios (nth 5))
+        | "cont" :: ks :: _ -> cont_case ks (ios (nth 2)) (ios (nth 3))
+        | "bcmp" :: ks :: _ -> bcmp_case ks (ios (nth 2)) (ios (nth 3)) (ios (nth 4))
+        | "bstep" :: ks :: _ -> bstep_case ks (ios (nth 2)) (ios (nth 4)) (ios (nth 5))
+        | "ncmp" :: ks :: _ -> do_cmp ks (ios (nth 2)) (ios (nth 3)) (ios (nth 4))
+        | "nstep" :: ks :: _ -> do_step ks (ios (nth 2)) (nth 3) (ios (nth 4)) (ios (nth 5))
+        | "arrow" :: _ -> arrow_case (ios (nth 1)) (ios (nth 2))
+        | "prim" :: kind :: _ -> prim_case kind (ios (nth 2)) (ios (nth 3)) (ios (nth 4))
+        | "trx" :: v :: _ -> trx_case v (if List.length t > 2 then zlist (nth 2) else [])
+        | "sparsex" :: _ -> sparsex_case (zlist (nth 2))
+        | "rutil" :: _ -> rutil_case (zlist (nth 1))
+        | "iseq" :: _ -> iseq_case (ios (nth 1))
+        | "hyx" :: _ -> hyx_case t
         | "idxrun" :: base :: _ -> idx_case base (ios (nth 2)) (nth 3) (if List.length t > 4 && nth 4 <> "-" then split_on ',' (nth 4) else [])
         | "irange" :: _ -> irange_case false t
         | "sirange" :: _ -> irange_case true t
